@@ -871,7 +871,10 @@ pub fn case_strategy() -> impl Strategy<Value = PCase> {
         })
 }
 
-pub fn replay(_engine: &str, case: &serde_json::Value) -> Result<(), String> {
+pub fn replay(engine: &str, case: &serde_json::Value) -> Result<(), String> {
+    if engine == "config-window" {
+        return crate::props::c13::replay(engine, case);
+    }
     let c: PCase = serde_json::from_value(case.clone()).map_err(|e| e.to_string())?;
     check(&c, &mut Stats::default(), &Known { d2: false, d4: false, d4b: false })
 }
@@ -879,13 +882,26 @@ pub fn replay(_engine: &str, case: &serde_json::Value) -> Result<(), String> {
 pub fn run(ctx: &Ctx) -> Report {
     let kn = load_known(&ctx.root);
     let known = Known { d2: known_open(&kn, "C11", KEY_D2), d4: known_open(&kn, "C11", KEY_D4), d4b: known_open(&kn, "C11", KEY_D4B) };
-    let (stats, failure) = run_proptest(ctx, "pci", 111, ctx.n(200_000, 20_000_000), case_strategy, |c: &PCase, st| check(c, st, &known));
+    // device-configuration accesses of every width at every offset touch only the device window
+    // (grid shared with C13)
+    let (mut stats, mut failure) = crate::runner::run_items(ctx, "config-window", crate::props::c13::pci_bounds_items(if ctx.quick() { 64 } else { 300 }), |it, st| {
+        let r = crate::props::c13::run_item(it, st);
+        if r.is_ok() {
+            st.class("device_config_window_grid_cells");
+        }
+        r
+    });
+    if failure.is_none() {
+        let (st, f) = run_proptest(ctx, "pci", 111, ctx.n(200_000, 20_000_000), case_strategy, |c: &PCase, st| check(c, st, &known));
+        stats.merge(st);
+        failure = f;
+    }
     Report {
         stats,
         failure,
         info: PartInfo {
             level: "exploration",
-            rule: "proptest over one function's configuration space: vendor/device ids, capability-list bit, acyclic capability lists (vendor capabilities of type 1..5 and unknown, cap_len classes <16/16..19/20/>20, foreign ids, duplicates, any order), bar field 0..255, offset/length from {0, small, size-len, around 2^31, around 2^32, sums that wrap}, multiplier {0,2,4,odd,random}; six BAR slots (unimplemented, I/O, 32-bit, 64-bit incl. sizes up to 2^63, unallocated); aligned and odd mmio_phys_to_virt offsets; served through ConfigurationAccess and MmioCam (CAM/ECAM); then a generated Transport op sequence against a register-level virtio-pci model. Oracle: independent capability re-parser + 128-bit window containment; construction never panics, leaves configuration space unchanged, succeeds on well-formed spaces, and when it succeeds uses exactly the re-parser's windows; all later accesses fall inside them with the standard layout (model faults otherwise); drop resets and polls; SomeTransport::Pci is trace-identical. Non-trivial = space with >=2 capabilities of one type or a foreign capability before the virtio ones, and a window within 64 bytes of its BAR's end. distinct = capability tuple list + mechanism + op count.",
+            rule: "proptest over one function's configuration space: vendor/device ids, capability-list bit, acyclic capability lists (vendor capabilities of type 1..5 and unknown, cap_len classes <16/16..19/20/>20, foreign ids, duplicates, any order), bar field 0..255, offset/length from {0, small, size-len, around 2^31, around 2^32, sums that wrap}, multiplier {0,2,4,odd,random}; six BAR slots (unimplemented, I/O, 32-bit, 64-bit incl. sizes up to 2^63, unallocated); aligned and odd mmio_phys_to_virt offsets; served through ConfigurationAccess and MmioCam (CAM/ECAM); then a generated Transport op sequence against a register-level virtio-pci model. Oracle: independent capability re-parser + 128-bit window containment; construction never panics, leaves configuration space unchanged, succeeds on well-formed spaces, and when it succeeds uses exactly the re-parser's windows; all later accesses fall inside them with the standard layout (model faults otherwise); drop resets and polls; SomeTransport::Pci is trace-identical. Device-configuration reads/writes of u8/u16/u32/[u8;6]/8- and 12-byte structs at every offset of windows of 0..64 (thorough: 300) bytes touch exactly the bytes inside the window or fail without an access. Non-trivial = space with >=2 capabilities of one type or a foreign capability before the virtio ones, and a window within 64 bytes of its BAR's end. distinct = capability tuple list + mechanism + op count.",
             assumptions: vec![
                 "cyclic capability lists are not generated (any walker spins on them)".into(),
                 "when the first capability of a type has a reserved bar value (>5) both refusing and skipping it (as the specification tells drivers to) are accepted".into(),
